@@ -68,6 +68,36 @@ def check(ctx):
                             f'instance attribute {t.attr} initialised per instance' if all(r[0] != 'global' for r in rs)
                             else f'instance attribute {t.attr} is bound to a module-level object', node=n)
 
+    # the result collection the parser hands back (return annotation of process()): a parameter declared with exactly that
+    # class is an OUTPUT of the step - the caller names the collection to fill - and filling it is judged where the caller
+    # passes the object (the ownership analysis carries the mutation to the call site: fresh local / per-instance state /
+    # the caller's own collector).  A default other than None would be one object shared by every call.
+    proc = parser.methods.get('process')
+    collector = None
+    if proc is not None and proc.node.returns is not None:
+        sym_ = prog.resolve_expr_symbol(proc.module, proc.node.returns) if isinstance(proc.node.returns, (ast.Name, ast.Attribute)) else None
+        collector = sym_ if isinstance(sym_, ClassInfo) else None
+
+    def collector_param(fn_: FuncInfo, name: str) -> bool:
+        if collector is None:
+            return False
+        a_ = fn_.node.args
+        pos_ = list(a_.posonlyargs) + list(a_.args)
+        dflts_ = dict(zip([p_.arg for p_ in pos_][len(pos_) - len(a_.defaults):], a_.defaults))
+        dflts_.update({p_.arg: d_ for p_, d_ in zip(a_.kwonlyargs, a_.kw_defaults) if d_ is not None})
+        for p_ in pos_ + list(a_.kwonlyargs):
+            if p_.arg != name or p_.annotation is None:
+                continue
+            ann_ = p_.annotation
+            if isinstance(ann_, ast.Subscript) and ast.unparse(ann_.value).split('.')[-1] == 'Optional':
+                ann_ = ann_.slice
+            sym2_ = prog.resolve_expr_symbol(fn_.module, ann_) if isinstance(ann_, (ast.Name, ast.Attribute)) else None
+            if sym2_ is not collector:
+                return False
+            d_ = dflts_.get(name)
+            return d_ is None or (isinstance(d_, ast.Constant) and d_.value is None)
+        return False
+
     # ---- C16.instance-state / C16.no-sharing over all mutation sites -----------------------------------
     n_sites = 0
     for fn in reach:
@@ -88,6 +118,9 @@ def check(ctx):
                     internal = fn.name.startswith('_') and not fn.name.startswith('__') and bool(cg.callers(fn))
                     if internal:
                         notes.append(f'fills the object its (internal) caller passes as `{r[1]}`: judged at the call sites')
+                    elif collector_param(fn, r[1]):
+                        notes.append(f'fills the {collector.name} its caller names as `{r[1]}` (an output of this step, None by '
+                                     f'default): judged at the call sites')
                     else:
                         problems.append(f'mutates its argument `{r[1]}` (path {".".join(r[2])}): the caller\'s JSON '
                                         f'document / namespace node is shared with other parses')
@@ -139,6 +172,9 @@ def check(ctx):
             if a.arg in mp and fn.name.startswith('_') and not fn.name.startswith('__') and cg.callers(fn):
                 run.holds('C16.no-sharing', fn.module.name, fn.qualname, f'{fn.qualname}({a.arg})',
                           'internal step that fills an object of its caller: judged at the call sites', nontrivial=False)
+            elif a.arg in mp and collector_param(fn, a.arg):
+                run.holds('C16.no-sharing', fn.module.name, fn.qualname, f'{fn.qualname}({a.arg})',
+                          f'the {collector.name} to fill, named by the caller (None by default): judged at the call sites', nontrivial=False)
             elif a.arg in mp:
                 run.violation('C16.no-sharing', fn.module.name, fn.qualname, f'{fn.qualname}({a.arg})',
                               'may mutate its argument: ' + ' <- '.join(mp[a.arg].chain()), node=mp[a.arg].node)
